@@ -200,6 +200,53 @@ def malformations(case):
     return bad
 
 
+def malformation_profile(case):
+    """Where the malformation sits, measured on the files (evidence only)."""
+    tags = set()
+    rain_t = sorted({t for t, _ in case['rain']})
+    wl_t = sorted({t for t, _ in case['wl']})
+    grid = G.span_grid(rain_t, wl_t)
+    if len(grid) < 2:
+        return tags
+    d = [b - a for a, b in zip(grid, grid[1:])]
+    if len(set(d)) != 1:
+        if len(d) >= 2 and len(set(d[:-1])) == 1:
+            tags.add('nonuniform:only_the_last_step_is_odd')
+            if grid[-1] == wl_t[-1]:
+                tags.add('nonuniform:odd_last_step_closed_exactly_at_last_water_level_timestamp')
+        if len(d) >= 2 and len(set(d[1:])) == 1:
+            tags.add('nonuniform:only_the_first_step_is_odd')
+            if grid[0] == wl_t[0]:
+                tags.add('nonuniform:odd_first_step_opened_exactly_at_first_water_level_timestamp')
+        return tags
+    if grid[-1] == wl_t[-1]:
+        tags.add('last_rain_instant_in_span_is_last_water_level_timestamp')
+    if grid[0] == wl_t[0]:
+        tags.add('first_rain_instant_in_span_is_first_water_level_timestamp')
+    if any(t == wl_t[-1] + 1 for t in rain_t) or any(t == wl_t[0] - 1 for t in rain_t):
+        tags.add('rain_record_one_second_outside_span')
+    et_t = {t for t, _ in case['et']}
+    has = [g in et_t for g in grid]
+    if all(has):
+        return tags
+    n_missing = has.count(False)
+    tags.add('et_missing:%s_steps' % ('1' if n_missing == 1 else 'all' if n_missing == len(grid) else 'several'))
+    if not has[0]:
+        tags.add('et_missing:leading_steps')
+    if not has[-1]:
+        tags.add('et_missing:trailing_steps')
+    if any(not x for x in has[1:-1]) and has[0] and has[-1]:
+        tags.add('et_missing:interior_only')
+    have = [g for g, x in zip(grid, has) if x]
+    if len(have) >= 2 and len({b - a for a, b in zip(have, have[1:])}) == 1:
+        tags.add('et_missing:remaining_et_instants_uniform')      # a grid built from ET would look regular
+    if et_t and min(et_t) > grid[0]:
+        tags.add('et_missing:record_starts_after_first_grid_instant')
+    if et_t and max(et_t) < grid[-1]:
+        tags.add('et_missing:record_ends_before_last_grid_step')
+    return tags
+
+
 def features(case):
     f = set()
     bad = malformations(case)
@@ -418,6 +465,8 @@ def check_cases(cases, out, label, prop=PROP):
         out.count('class:' + case.get('cls', '?'))
         for f in case.get('features', sorted(features(case))):
             out.count(f)
+        for f in sorted(malformation_profile(case)):
+            out.count('profile:' + f)
         pub = dict(level='CL', case=public(case))
         bad = malformations(case)
         for name in ('rain', 'et', 'wl'):
@@ -456,19 +505,39 @@ def check_cases(cases, out, label, prop=PROP):
                       % (case.get('cls'), what), case=dict(level='CL', case=public(case)))
 
 
+def extra_streams(seed, n_et, n_edge, prop=PROP):
+    """Malformed streams with their own random sources (the main stream is
+    unchanged by them): evapotranspiration records that start late, end early,
+    have holes, are coarser than or off the grid; a non-uniform rainfall step
+    at an end of the span, closed exactly at the last (first) water-level
+    timestamp, and its near misses."""
+    out = []
+    rng = C.rng_for(seed, prop, 'et_malformed')
+    for k in range(n_et):
+        out.append(G.gen_case(rng, G.ET_MALFORMED_CLASSES[k % len(G.ET_MALFORMED_CLASSES)]))
+    rng = C.rng_for(seed, prop, 'nonuniform_edge')
+    for k in range(n_edge):
+        out.append(G.gen_case(rng, G.NONUNIFORM_EDGE_CLASSES[0 if k % 3 else 1]))
+    return out
+
+
 def run(ctx, out):
     C.import_spowtd()
     seed, tier = ctx['seed'], ctx['tier']
     rng = C.rng_for(seed, PROP)
     n = 200 if tier == 'quick' else 2000
     cases, quota, short = generate(rng, n)
+    cases += extra_streams(seed, 36 if tier == 'quick' else 300, 24 if tier == 'quick' else 200)
     check_cases(cases, out, 'cl')
     out.notes.append('generator quota per measured feature: %d; shortfalls: %s' % (quota, short or 'none'))
     out.rule = ('CL: generated triples of input files through the real `spowtd load`; every table the load '
                 'fills is compared with load_model inside Coq. Non-trivial: an accepted load with at least one '
                 'water level interpolated off a source instant or at least one gap in the source record; '
                 'distinct by the digest of the three files. Features in input_distribution are measured on '
-                'the generated files, not assumed from the generator class.')
+                'the generated files, not assumed from the generator class. Two further malformed streams (own '
+                'random sources): ET records starting late / ending early / with holes / coarser / off the grid, '
+                'and a non-uniform rainfall step closed exactly at the last (first) water-level timestamp with '
+                'near misses of one second (profile:* counts, measured on the files).')
     out.samples = [public(c) for c in cases[:2]]
     out.assumptions += [
         'reading of decimal text into binary64 (Python float() = SQLite for <= 15 significant digits) is an '
